@@ -2,6 +2,8 @@ import Mimic.Control
 import Mimic.Framing
 import Mimic.Cursor
 import Mimic.ResultsTables
+import Mimic.Params
+import Mimic.Extracted.Params
 /-! Line-protocol driver pieces: one `handle` per domain. Unknown input is answered `bad-op`, never defaulted. -/
 namespace Mimic.Drv
 
@@ -215,6 +217,56 @@ def res (_st : St) : List String → String
       | none => "bad-op"
   | _ => "bad-op"
 
+/-! params -/
+
+def utf8Dec (b : List UInt8) : Option (List Char) := (String.fromUTF8? (ByteArray.mk b.toArray)).map String.toList
+
+def utf8Hex (s : List Char) : String := hex (String.ofList s).toUTF8.data.toList
+
+def showPVal : Mimic.Params.PVal → String
+  | .null => "N"
+  | .int z => s!"I{z}"
+  | .str s => "S" ++ utf8Hex s
+  | .flt b => "F" ++ hex b
+
+def showAttrs (a : List (List Char × Mimic.Params.PVal)) : String :=
+  if a.isEmpty then "-" else ";".intercalate (a.map (fun kv => utf8Hex kv.1 ++ ":" ++ showPVal kv.2))
+
+def fltMark (b : List UInt8) : List Char := ("<flt:" ++ hex b ++ ">").toList
+
+def parseBuffers (s : String) : Option (Nat → Option (List UInt8)) :=
+  if s = "-" then some (fun _ => none) else
+  let parts := (s.splitOn ",").map (fun p => match p.splitOn "=" with
+    | [i, h] => match i.toNat?, unhex h with
+      | some i, some b => some (i, b)
+      | _, _ => none
+    | _ => none)
+  match optAllL parts with
+  | some l => some (fun i => (l.find? (fun kv => kv.1 == i)).map Prod.snd)
+  | none => none
+
+def par (_st : St) : List String → String
+  | ["query", qa, h] => match unhex h with
+      | some p => match Mimic.Params.parseQuery Mimic.Extracted.Params.validColumnTypes utf8Dec (qa == "1") p with
+        | some (sql, attrs) => s!"sql={utf8Hex sql} attrs={showAttrs attrs}"
+        | none => "err"
+      | none => "bad-op"
+  | ["exec", qa, np, sqlh, bufs, h] => match np.toNat?, unhex sqlh, parseBuffers bufs, unhex h with
+      | some np, some sqlb, some bf, some p => match utf8Dec sqlb with
+        | some sql =>
+          match Mimic.Params.parseExecute Mimic.Extracted.Params.validColumnTypes utf8Dec fltMark (qa == "1")
+              { sql := sql, numParams := np, buffers := bf } p with
+          | some (sql', attrs, cur) => s!"sql={utf8Hex sql'} attrs={showAttrs attrs} cursor={if cur then 1 else 0}"
+          | none => "err"
+        | none => "bad-op"
+      | _, _, _, _ => "bad-op"
+  | ["count", sqlh] => match unhex sqlh with
+      | some b => match utf8Dec b with
+        | some sql => toString (Mimic.Params.phCount 0 sql)
+        | none => "bad-op"
+      | none => "bad-op"
+  | _ => "bad-op"
+
 def handle (st : St) (line : String) : St × String :=
   match words line with
   | "ctl" :: rest => ctl st rest
@@ -222,6 +274,7 @@ def handle (st : St) (line : String) : St × String :=
   | "wr" :: rest => wr st rest
   | "cur" :: rest => cur st rest
   | "res" :: rest => (st, res st rest)
+  | "par" :: rest => (st, par st rest)
   | _ => (st, "bad-op")
 
 end Mimic.Drv
